@@ -53,6 +53,21 @@ pub fn init_json(interp: &mut Interpreter) {
     let json = interp.root_guard.alloc();
     json.borrow_mut().prototype = Some(interp.object_prototype.clone());
 
+    // Object.prototype.toString.call(JSON) is "[object JSON]"
+    let tag_key = PropertyKey::Symbol(Box::new(crate::value::JsSymbol::new(
+        interp.well_known_symbols.to_string_tag,
+        Some(interp.intern("Symbol.toStringTag")),
+    )));
+    json.borrow_mut().define_property(
+        tag_key,
+        crate::value::Property::with_attributes(
+            JsValue::String(JsString::from("JSON")),
+            false,
+            false,
+            true,
+        ),
+    );
+
     interp.register_method(&json, "stringify", json_stringify, 3);
     interp.register_method(&json, "parse", json_parse, 2);
     interp.register_method(&json, "rawJSON", json_raw_json, 1);
